@@ -121,7 +121,7 @@ def run(ctx):
     forms(ctx)
     ctx.floor("E12", 60)
     ctx.floor("TAB-ESCAPE", 7)
-    ctx.floor("TAB-FORM", 6)
+    ctx.floor("TAB-FORM", 40)
 
 
 # ------------------------------------------------------------------------------
@@ -200,18 +200,26 @@ def escape_table(ctx):
 
 
 # ------------------------------------------------------------------------------
-FORM_SRC = '''
+FORM_HEAD = '''
 #![allow(unused)]
 #[inline(never)] pub fn e1() -> u8 { loop {} }
 #[inline(never)] pub fn e2() -> u8 { loop {} }
 #[inline(never)] pub fn e0() -> u8 { loop {} }
-pub fn strip_pre(p: &mut konst::Parser<'_>) -> u8 { konst::parser_method!{*p, strip_prefix; "ab" => e1(), "a" | "cd" => e2(), _ => e0()} }
-pub fn strip_suf(p: &mut konst::Parser<'_>) -> u8 { konst::parser_method!{*p, strip_suffix; "ab" => e1(), "a" | "cd" => e2(), _ => e0()} }
-pub fn find(p: &mut konst::Parser<'_>) -> u8 { konst::parser_method!{*p, find_skip; "ab" => e1(), "c" => e2(), _ => e0()} }
-pub fn rfind(p: &mut konst::Parser<'_>) -> u8 { konst::parser_method!{*p, rfind_skip; "ab" => e1(), "c" => e2(), _ => e0()} }
 pub fn trim_s(p: &mut konst::Parser<'_>) { konst::parser_method!{*p, trim_start_matches; "ab" | "c" | ""} }
 pub fn trim_e(p: &mut konst::Parser<'_>) { konst::parser_method!{*p, trim_end_matches; "ab" | "c" | ""} }
 '''
+# every way of writing the branches: `=> expr,`  /  `=> { block }` without a comma  /  a block in the middle  /  blocks with commas
+BRANCH_STYLES = {
+    "": "%(a)s => e1(), %(b)s => e2(), _ => e0()",
+    "_blk": "%(a)s => { e1() } %(b)s => { e2() } _ => { e0() }",
+    "_mid": "%(a)s => e1(), %(b)s => { e2() } _ => e0()",
+    "_blkc": "%(a)s => { e1() }, %(b)s => e2(), _ => { e0() },",
+}
+BRANCH_FORMS = [("strip_pre", "strip_prefix", '"ab"', '"a" | "cd"'), ("strip_suf", "strip_suffix", '"ab"', '"a" | "cd"'),
+                ("find", "find_skip", '"ab"', '"c"'), ("rfind", "rfind_skip", '"ab"', '"c"')]
+FORM_SRC = FORM_HEAD + "".join(
+    "pub fn %s%s(p: &mut konst::Parser<'_>) -> u8 { konst::parser_method!{*p, %s; %s} }\n" % (fn, sfx, meth, style % {"a": a, "b": b_})
+    for fn, meth, a, b_ in BRANCH_FORMS for sfx, style in BRANCH_STYLES.items())
 
 
 def forms(ctx):
@@ -223,9 +231,11 @@ def forms(ctx):
     REM = "konst::parsing::non_parsing_methods::<impl konst::Parser<'a>>::remainder"
     pats = f.get("hir_pats", [])
     # arm order = listed order
-    for fn, side, lits in (("strip_pre", "before", [b"ab", b"a", b"cd"]), ("strip_suf", "after", [b"ab", b"a", b"cd"]),
-                           ("find", "before", [b"ab", b"c"]), ("rfind", "after", [b"ab", b"c"]),
-                           ("trim_s", "before", [b"ab", b"c", b""]), ("trim_e", "after", [b"ab", b"c", b""])):
+    styled = lambda name: [name + sfx for sfx in BRANCH_STYLES]
+    order_rows = [(f_, "before", [b"ab", b"a", b"cd"]) for f_ in styled("strip_pre")] + [(f_, "after", [b"ab", b"a", b"cd"]) for f_ in styled("strip_suf")] \
+        + [(f_, "before", [b"ab", b"c"]) for f_ in styled("find")] + [(f_, "after", [b"ab", b"c"]) for f_ in styled("rfind")] \
+        + [("trim_s", "before", [b"ab", b"c", b""]), ("trim_e", "after", [b"ab", b"c", b""])]
+    for fn, side, lits in order_rows:
         ps = [bytes(p[side]) for p in pats if p["owner"].endswith("::" + fn) and p["rest"] and (p[side] or not p["before" if side == "after" else "after"])]
         ps = [x for x in ps]
         got = [x for x in ps if x in lits or x == b""]
@@ -234,8 +244,9 @@ def forms(ctx):
             ctx.violation("TAB-FORM", fn + "|order", "%s: literal patterns appear in order %s, expected the listed order %s" % (fn, got, lits))
         ctx.instance("TAB-FORM", fn + "|order", sample={"form": fn, "patterns": [x.decode() for x in got]})
     # the parser is advanced by exactly the matched length, from the right end
-    for fn, meth, end in (("strip_pre", "skip", "front"), ("strip_suf", "skip_back", "back"), ("find", "skip", "front"), ("rfind", "skip_back", "back"),
-                          ("trim_s", "skip", "front"), ("trim_e", "skip_back", "back")):
+    setter_rows = [(f_, "skip", "front") for f_ in styled("strip_pre") + styled("find")] + [(f_, "skip_back", "back") for f_ in styled("strip_suf") + styled("rfind")] \
+        + [("trim_s", "skip", "front"), ("trim_e", "skip_back", "back")]
+    for fn, meth, end in setter_rows:
         b = prog.get("w18f::" + fn)
         if b is None:
             ctx.violation("TAB-FORM", fn, "witness function missing")
@@ -248,7 +259,7 @@ def forms(ctx):
                 fn, meth, len(setters), meth, len(wrong)))
         ctx.instance("TAB-FORM", fn + "|setter", sample={"form": fn, "setter": meth, "calls": len(setters)})
     # per-path check on the loop-free strip forms: skip amount = len(remainder) - len(rem), rem = slice minus the literal
-    for fn, meth, n_first in (("strip_pre", "skip", 2), ("strip_suf", "skip_back", 2)):
+    for fn, meth, n_first in [(f_, "skip", 2) for f_ in styled("strip_pre")] + [(f_, "skip_back", 2) for f_ in styled("strip_suf")]:
         b = prog.get("w18f::" + fn)
         if b is None:
             continue
@@ -279,7 +290,7 @@ def forms(ctx):
             ctx.violation("TAB-FORM", fn + "|cover", "%s: branches reached %s" % (fn, sorted(seen)))
         ctx.instance("TAB-FORM", fn + "|paths", sample={"form": fn, "paths": len(paths)})
     # find forms: the no-match arm drops exactly one byte from the scanning end; trim forms: empty match breaks
-    for fn, end in (("find", "front"), ("rfind", "back"), ("trim_s", "front"), ("trim_e", "back")):
+    for fn, end in [(f_, "front") for f_ in styled("find")] + [(f_, "back") for f_ in styled("rfind")] + [("trim_s", "front"), ("trim_e", "back")]:
         b = prog.get("w18f::" + fn)
         if b is None or not b.loops():
             ctx.violation("TAB-FORM", fn + "|loop", "%s: expected a scanning loop" % fn)
@@ -294,12 +305,12 @@ def forms(ctx):
                 if v[0] == "ref" and v[1][0] == "subslice" and v[1][1] == ("deref", ("L", l)):
                     cur = l
                     cut = (v[1][2], v[1][3])
-                    if fn in ("find", "rfind"):
+                    if fn.startswith(("find", "rfind")):
                         if cut == ((1, 0) if end == "front" else (0, 1)):
                             ok_drop = True
                         else:
                             ctx.violation("TAB-FORM", fn + "|drop", "%s: on no match the scan drops %s bytes, expected one byte from the %s" % (fn, cut, end))
-        if fn in ("find", "rfind") and not ok_drop:
+        if fn.startswith(("find", "rfind")) and not ok_drop:
             ctx.violation("TAB-FORM", fn + "|drop", "%s: no loop path drops exactly one byte from the %s" % (fn, end))
         if fn.startswith("trim"):
             # a back edge requires len(rem) != len(bytes); the empty literal must exit
